@@ -126,7 +126,9 @@ func lengths() []int {
 		}
 	}
 	if rt.Thorough() {
-		for _, x := range []int{20000, 32767, 32768, 40000, 65000, 65228} {
+		// 65216 = 32*2038 is the longest name the wire format can carry: enc(32) + inner(1+256+2+padded) + tag(16) <= 65535.
+		// (Longer names make the CLIENT panic inside cryptobyte's BytesOrPanic - a local argument, outside this property.)
+		for _, x := range []int{20000, 32767, 32768, 40000, 65000, 65215, 65216} {
 			set[x] = true
 		}
 	}
@@ -139,7 +141,7 @@ func lengths() []int {
 }
 
 func TestEveryLength(t *testing.T) {
-	s := rt.S("every-length").SetRule("for EVERY name length 0..130 (thorough: 0..4096) and every multiple of 32 +-1 up to 4096 (thorough: selected up to 65228, the largest that fits the wire format): a name of that length (host-like / arbitrary non-zero bytes / interior NULs; never ending in 0x00) is requested; with exactly that name registered the issuer must serve it, with only near-misses registered it must refuse; wire length must be identical for all names with the same number of 32-byte blocks and differ between block counts. non-trivial = every length; distinct by construction")
+	s := rt.S("every-length").SetRule("for EVERY name length 0..130 (thorough: 0..4096) and every multiple of 32 +-1 up to 4096 (thorough: selected up to 65216, the largest that fits the wire format): a name of that length (host-like / arbitrary non-zero bytes / interior NULs; never ending in 0x00) is requested; with exactly that name registered the issuer must serve it, with only near-misses registered it must refuse; wire length must be identical for all names with the same number of 32-byte blocks and differ between block counts. non-trivial = every length; distinct by construction")
 	defer rt.Entropy([]byte(fmt.Sprintf("c20 every length %d", rt.BaseSeed)))()
 	w := world{rsaIdx: int(rt.BaseSeed % 8), chal: []byte("challenge"), nonce: bytes.Repeat([]byte{7}, 32)}
 	w.secret = bytes.Repeat([]byte{0x11}, 48)
@@ -207,7 +209,7 @@ func clip(s string) string {
 
 func TestDrawnNames(t *testing.T) {
 	s := rt.S("drawn-names").SetRule("drawn names (length biased to block boundaries, drawn content incl. interior NULs and non-ASCII) and a drawn second name with the same block count: exact-name service, near-miss refusal (last byte changed, byte appended/removed, 00-then-nonzero suffixes, case change, empty), equal wire length within a block count; also a request for a near-miss against an issuer that registered the name itself. non-trivial = every case; distinct by name")
-	rt.Check(t, 120, 6000, func(t *rapid.T) {
+	rt.Check(t, 120, 20000, func(t *rapid.T) {
 		defer rt.Entropy(gen.Seed().Draw(t, "entropy"))()
 		w := world{rsaIdx: gen.RSAKey().Draw(t, "rsakey"), chal: gen.Challenge().Draw(t, "challenge"), nonce: gen.Bytes32().Draw(t, "nonce"),
 			secret: gen.P384KeyBytes().Draw(t, "secret"), blind: gen.P384KeyBytes().Draw(t, "blind")}
